@@ -371,6 +371,10 @@ class ReadModifyWriteRequestPacket(SendUnitDataRequestPacket):
         if self.data_type == "DWORD":
             bit %= 32
 
+        if isinstance(value, (list, tuple)) and len(value) == 1:
+            # 'boolarray[5]{1}' takes a one-element list like a slice of any other array, [False] clears the bit
+            value = value[0]
+
         if value:
             self._or_mask |= 1 << bit
             self._and_mask |= 1 << bit
